@@ -176,3 +176,44 @@ func shapeLens(s int) []int {
 	}
 	return lens
 }
+
+// VerifC19Redecode: one Labels object decodes names of shapes s1, s2 and is then asked to decode a
+// second input of n symbolic bytes (copyFirst != 0: a VALUE COPY of the object is, as types that
+// embed Labels by value make). If the second decoding fails the object still is the first list and
+// encodes to the first input; if it succeeds the object is the second list; the original of a
+// value copy is the first list in either case.
+func VerifC19Redecode(s1, s2, n, copyFirst int) {
+	all, _ := verifNames([]int{s1, s2})
+	b1 := refEncode(all)
+	var l Labels
+	err := l.FromBytes(b1)
+	verifAssert(err == nil, "decode-ok")
+	if err != nil {
+		return
+	}
+	b2 := verifBytes("second", n)
+	names2, st2 := refNames(b2)
+	target := &l
+	var cp Labels
+	if copyFirst != 0 {
+		cp = l
+		target = &cp
+	}
+	err2 := target.FromBytes(b2)
+	if st2 == refUndefined {
+		verifReach("undefined-by-rfc")
+		verifReach("end")
+		return
+	}
+	verifAssert((err2 == nil) == (st2 == refOK), "accept-iff-rfc-wellformed")
+	if copyFirst != 0 || err2 != nil {
+		// the first object is untouched
+		verifAssert(len(l.Labels) == len(all), "failed-or-foreign-decoding-leaves-the-names")
+		verifAssert(verifSame(l.ToBytes(), b1), "failed-or-foreign-decoding-leaves-the-encoding")
+	}
+	if err2 == nil && st2 == refOK {
+		verifAssert(len(target.Labels) == len(names2), "same-number-of-names")
+		verifAssert(verifSame(target.ToBytes(), b2), "unmodified-reencodes-to-original")
+	}
+	verifReach("end")
+}
